@@ -170,3 +170,43 @@ Qed.
 
 Theorem frame_participants p pass sup hc sv h : step h (op_of p pass sup hc sv) = h.
 Proof. apply frame. Qed.
+
+(* ---------------------------------------------------------------- refused constructions *)
+Lemma ctor_effs_current h o : ctor_effs opts_hold no_tag h o = [].
+Proof.
+  unfold ctor_effs, no_tag. cbn [app]. destruct (negb (o_pass_opts o) || is_empty (h_opts h)); [reflexivity|].
+  destruct (o_cls o); reflexivity.
+Qed.
+(* a construction that is refused, wherever it stops, leaves the caller's heap as it was *)
+Theorem refused_frame h o n : refused_step h o n = h.
+Proof. unfold refused_step, refused_gen. rewrite ctor_effs_current. destruct n; reflexivity. Qed.
+Theorem ev_frame h e : ev_step h e = h.
+Proof. destruct e; [apply frame|apply refused_frame]. Qed.
+Theorem ev_run_frame evs : forall h, ev_run evs h = h.
+Proof. induction evs as [|e r IH]; intros h; [reflexivity|]. cbn [ev_run fold_left]. rewrite ev_frame. apply IH. Qed.
+Theorem ev_history_independent evs h o : model_of (ev_run evs h) o = model_of h o.
+Proof. rewrite ev_run_frame. reflexivity. Qed.
+
+(* in-place tagging of the caller's graph: every COMPLETED construction restores the graph ... *)
+Lemma filter_fresh (t : nat) (l : list nat) : ~ In t l -> filter (fun x => negb (Nat.eqb x t)) (l ++ [t]) = l.
+Proof.
+  intros H. rewrite filter_app. cbn [filter]. rewrite Nat.eqb_refl. cbn [negb]. rewrite app_nil_r.
+  induction l as [|a l IH]; [reflexivity|]. cbn [filter]. destruct (Nat.eqb a t) eqn:E.
+  - apply Nat.eqb_eq in E. subst. exfalso. apply H. left. reflexivity.
+  - cbn [negb]. f_equal. apply IH. intros Hi. apply H. right. exact Hi.
+Qed.
+Theorem inplace_tag_completed_invisible h o : ~ In 1 (h_graph h) -> completed_gen opts_hold inplace_tag h o = h.
+Proof.
+  intros Hn. unfold completed_gen, ctor_effs.
+  assert (E : (if negb (o_pass_opts o) || is_empty (h_opts h) then [] else
+               match opts_hold (o_cls o) with AliasIfNonEmpty => [EKeys (ctor_writes (o_cls o) (o_sup o) (o_hc o))] | _ => [] end) = @nil eff).
+  { destruct (negb (o_pass_opts o) || is_empty (h_opts h)); [reflexivity|]. destruct (o_cls o); reflexivity. }
+  rewrite E, app_nil_r. destruct (inplace_tag (o_cls o)); [|reflexivity].
+  unfold run_effs. cbn [fold_left apply_eff with_graph h_graph]. rewrite (filter_fresh 1 (h_graph h) Hn). destruct h; reflexivity.
+Qed.
+(* ... but a construction refused between tagging and untagging leaves the tags behind *)
+Theorem inplace_tag_refused_refuted : exists h o n, ~ In 1 (h_graph h) /\ refused_gen opts_hold inplace_tag h o n <> h.
+Proof. exists ex_heap, (mk_op CkPathCover true false false true), 1. split; [intros []|vm_compute; discriminate]. Qed.
+(* the old dict handling also failed the refused-construction frame (keys written before the refusal stay) *)
+Theorem old_refused_refuted : exists h o n, refused_gen old_opts_hold no_tag h o n <> h.
+Proof. exists ex_heap, (mk_op CkMinPathError true true false true), 1. vm_compute. discriminate. Qed.
